@@ -16,6 +16,19 @@ from verif import apps, tasks, whitebox
 from verif.core import Ctx, Part, merge_parts, pmap, ncpu
 from verif.models import lifecycle as L
 
+
+_PARENT = None
+
+
+def worker_ctx(runner_id: str):
+    """Requesters are worker contexts nested under one common parent runner (as the process runners create them):
+    ownership must follow the worker's own id, never the shared root."""
+    global _PARENT
+    if _PARENT is None:
+        _PARENT = apps.rctx("PARENT-RUNNER", "ParentRunner")
+    return apps.rctx(runner_id, parent=_PARENT)
+
+
 LEVEL = "exploration"
 
 OWNERS = [None, "A", "B"]
@@ -76,7 +89,7 @@ def request(app: Any, inv_id: str, target: str, requester: str | None) -> str:
         if requester is None:
             app.orchestrator._atomic_status_transition(inv_id, S[target], None)
         else:
-            app.orchestrator.set_invocation_status(inv_id, S[target], apps.rctx(requester))
+            app.orchestrator.set_invocation_status(inv_id, S[target], worker_ctx(requester))
     except Exception as exc:  # noqa: BLE001 - classified
         return classify(exc)
     return L.OK
@@ -120,12 +133,12 @@ def install(app: Any, task: Any, status: str | None, owner: str | None, n: int) 
     if reachable:
         actor = owner or "A"
         for st in PATHS[status]:
-            app.orchestrator.set_invocation_status(inv_id, S[st], apps.rctx(actor))
+            app.orchestrator.set_invocation_status(inv_id, S[st], worker_ctx(actor))
     else:
         # take the public path first (so indexes / side tables look real), then fix the owner
         actor = owner or "A"
         for st in PATHS[status]:
-            app.orchestrator.set_invocation_status(inv_id, S[st], apps.rctx(actor))
+            app.orchestrator.set_invocation_status(inv_id, S[st], worker_ctx(actor))
         whitebox.inject_status(app, inv_id, S[status], owner)
         injected = True
     return (inv_id, injected)
